@@ -124,7 +124,9 @@ def run_case(case):
     cfg, ops = case['cfg'], case['ops']
     nt = False
     labels = []
-    for mode in ('exact', 'float'):
+    # a discontinuous (zero-one) loss is not run as a float twin: the mean of n identical float predictions may differ from the
+    # prediction in the last bit and fall on the other side of the threshold - the identity then fails for reasons of rounding alone
+    for mode in (('exact',) if cfg['loss'].get('kind') == '01' else ('exact', 'float')):
         sim = Sim(cfg, mode)
         unsupported = False
         for op in ops:
@@ -188,7 +190,7 @@ def make_machine():
         @initialize(cfg=cfgs.config_st(tmin=0, tmax=0))
         def setup(self, cfg):
             self.cfg = {k: v for k, v in cfg.items() if k not in ('stream', 'mode')}
-            self.sims = [Sim(self.cfg, 'exact'), Sim(self.cfg, 'float')]
+            self.sims = [Sim(self.cfg, 'exact')] + ([] if self.cfg['loss'].get('kind') == '01' else [Sim(self.cfg, 'float')])
             self.ops = []
 
         def _do(self, op):
